@@ -6,6 +6,7 @@
 #pragma once
 
 #include <tao/pegtl.hpp>
+#include <tao/pegtl/contrib/remove_first_state.hpp>
 #include <tao/pegtl/contrib/state_control.hpp>
 
 namespace vf
@@ -445,6 +446,14 @@ namespace vf
    template< typename Rule >
    using sc_control = typename tao::pegtl::state_control< lcontrol >::template control< Rule >;
 
+   // as coverage()/trace use it: the state object is passed LAST and rotated to the front by rotate_states_right (shuffle_states)
+   template< typename Rule >
+   using scr_control = typename tao::pegtl::state_control< lcontrol >::template type< Rule >;
+
+   // remove_first_state: the wrapped control must see the same hooks without the first state
+   template< typename Rule >
+   using rf_control = tao::pegtl::remove_first_state< lcontrol< Rule > >;
+
    // ------------------------------------------------------------------ states and switchable action classes (C13)
 
    struct ostate
@@ -591,7 +600,49 @@ namespace vf
       out[ 5 ] = in.column();
    }
 
+   // runs with extra states: (ostate, hstate) for the rotated state_control, (ostate) for remove_first_state
+   template< typename Rule, apply_mode A, rewind_mode M, template< typename... > class Action, template< typename... > class Control, int NSTATES >
+   inline void run_states( const char* b, unsigned long n, unsigned long start, unsigned long* out )
+   {
+      eager_in in( b, b + n, "" );
+      in.bump_in_this_line( start );
+      ostate os;
+      hstate hs;
+      out[ 2 ] = 0;
+      out[ 3 ] = 0;
+      out[ 6 ] = 0;
+      out[ 7 ] = 0;
+      try {
+         if constexpr( NSTATES == 2 ) {
+            out[ 0 ] = Control< Rule >::template match< A, M, Action, Control >( in, os, hs );
+         }
+         else {
+            out[ 0 ] = Control< Rule >::template match< A, M, Action, Control >( in, os );
+         }
+      }
+      catch( const verif_exc& e ) {
+         out[ 0 ] = 2;
+         out[ 2 ] = e.id;
+         out[ 3 ] = e.byte;
+         out[ 6 ] = e.line;
+         out[ 7 ] = e.column;
+      }
+      catch( const foreign_exc& e ) {
+         out[ 0 ] = 3;
+         out[ 2 ] = e.id;
+      }
+      out[ 1 ] = in.byte();
+      out[ 4 ] = in.line();
+      out[ 5 ] = in.column();
+   }
+
 }  // namespace vf
+
+#define VF_WRAP_HS2( name, ... ) \
+   extern "C" __attribute__( ( noinline ) ) void name( const char* b, unsigned long n, unsigned long s, unsigned long* o ) { vf::run_states< __VA_ARGS__, 2 >( b, n, s, o ); }
+#define VF_WRAP_OS( name, ... ) \
+   extern "C" __attribute__( ( noinline ) ) void name( const char* b, unsigned long n, unsigned long s, unsigned long* o ) { vf::run_states< __VA_ARGS__, 1 >( b, n, s, o ); }
+
 
 #define VF_WRAP_HS( name, ... ) \
    extern "C" __attribute__( ( noinline ) ) void name( const char* b, unsigned long n, unsigned long s, unsigned long* o ) { vf::run_hs< __VA_ARGS__ >( b, n, s, o ); }
